@@ -102,3 +102,67 @@ func TestVerifC13(t *testing.T) {
 		out.emit(map[string]interface{}{"kind": "route", "path": p, "status": rec.Code, "location": rec.Header().Get("Location"), "wrapped_saw": ws})
 	}
 }
+
+// TestVerifC13Redirect: a backend that answers the websocket handshake with a redirect (or another
+// non-101 reply) pointing somewhere else.  Every address the agent tries to connect to is recorded;
+// only the configured backend is really dialled.
+func TestVerifC13Redirect(t *testing.T) {
+	out := verifOpenOut(t)
+	defer out.close()
+	var mu sync.Mutex
+	var dialed []string
+	var backendAddr string
+	old := websocket.DefaultDialer
+	websocket.DefaultDialer = &websocket.Dialer{NetDialContext: func(ctx context.Context, network, addr string) (net.Conn, error) {
+		mu.Lock()
+		dialed = append(dialed, addr)
+		ok := addr == backendAddr
+		mu.Unlock()
+		if !ok {
+			return nil, errors.New("verif: foreign dial recorded, not performed")
+		}
+		return (&net.Dialer{}).DialContext(ctx, network, addr)
+	}}
+	defer func() { websocket.DefaultDialer = old }()
+	type reply struct {
+		Status   int    `json:"status"`
+		Location string `json:"location"`
+	}
+	var cur reply
+	be := httptest.NewServer(http.HandlerFunc(func(w http.ResponseWriter, r *http.Request) {
+		mu.Lock()
+		c := cur
+		mu.Unlock()
+		if c.Location != "" {
+			w.Header().Set("Location", c.Location)
+		}
+		w.Header().Set("Refresh", "0; url=http://evil.example:81/ws")
+		w.Header().Set("Content-Location", "http://evil.example:81/ws")
+		w.WriteHeader(c.Status)
+	}))
+	defer be.Close()
+	backendAddr = strings.TrimPrefix(be.URL, "http://")
+	wrapped := http.HandlerFunc(func(w http.ResponseWriter, r *http.Request) { w.WriteHeader(299) })
+	ident := func(h http.Handler, _ *metrics.MetricHandler) http.Handler { return h }
+	h, err := Proxy(context.Background(), wrapped, backendAddr, "verifshim", false, false, ident, nil)
+	if err != nil {
+		t.Fatal(err)
+	}
+	for _, st := range []int{301, 302, 303, 307, 308, 300, 200, 401, 407, 426, 503} {
+		for _, loc := range []string{"http://evil.example:81/ws", "ws://evil.example:81/ws", "//evil.example:81/ws", "https://evil.example/ws", "/same-host/ws", "wss://evil.example/ws", "http://" + backendAddr + "@evil.example:81/ws", ""} {
+			for _, body := range []string{"ws://front.example/ws", "ws://front.example/login?next=http%3A%2F%2Fevil.example%3A81%2Fws", "ws://front.example//evil.example:81"} {
+				mu.Lock()
+				cur = reply{Status: st, Location: loc}
+				dialed = nil
+				mu.Unlock()
+				req := httptest.NewRequest("POST", "http://agent.local/verifshim/open", strings.NewReader(body))
+				rec := httptest.NewRecorder()
+				h.ServeHTTP(rec, req)
+				mu.Lock()
+				d := append([]string{}, dialed...)
+				mu.Unlock()
+				out.emit(map[string]interface{}{"kind": "redirect", "backend": backendAddr, "backend_status": st, "backend_location": loc, "open_body": body, "status": rec.Code, "dialed": d})
+			}
+		}
+	}
+}
